@@ -486,6 +486,10 @@ pub fn parse_witness(w: &str) -> (TokCfg, Vec<Feed>) {
     (cfg, sched)
 }
 
+pub fn rust_to_json_pub(lit: &str) -> String {
+    rust_to_json(lit)
+}
+
 /// Rust `{:?}` string literal -> JSON string literal
 fn rust_to_json(lit: &str) -> String {
     // \u{XXXX} -> \uXXXX (with surrogate pairs), \0 -> \u0000, \' -> '
